@@ -151,6 +151,56 @@ def run_reducer(solvers, streams, schedule, op, var=None, stats_mode="snapshot")
     return out
 
 
+def run_reducer_history(solvers, steps, stats_mode="snapshot"):
+    """Runs several calls on ONE MultiprocessingSolver object (the real reducer, each call against its own recorded streams
+    and schedule). steps: dicts {op, var, streams, schedule, abandon}: abandon = number of solutions after which the
+    enumeration generator is closed by the caller (None = run to completion). Returns one outcome dict per step."""
+    import nucs.solvers.multiprocessing_solver as mps
+
+    saved = (mps.Process, mps.Queue)
+    mps.Process, mps.Queue = _FakeProcess, _FakeQueue
+    outs = []
+    try:
+        _FakeQueue.current = (steps[0]["streams"], steps[0]["schedule"], stats_mode)
+        ms = mps.MultiprocessingSolver(solvers, log_level="ERROR")
+        for st in steps:
+            _FakeQueue.current = (st["streams"], st["schedule"], stats_mode)
+            _FakeQueue.last = None
+            out = {"error": None, "abandoned": False}
+            try:
+                if st["op"] == "solve":
+                    it = ms.solve()
+                    if st.get("abandon") is None:
+                        out["results"] = [tuple(int(x) for x in s) for s in it]
+                    else:
+                        got = []
+                        for s in it:
+                            got.append(tuple(int(x) for x in s))
+                            if len(got) >= st["abandon"]:
+                                break
+                        it.close()
+                        out["results"] = got
+                        out["abandoned"] = True
+                else:
+                    r = ms.minimize(st["var"]) if st["op"] == "minimize" else ms.maximize(st["var"])
+                    out["result"] = None if r is None else tuple(int(x) for x in r)
+                if not out["abandoned"]:
+                    try:
+                        out["stats"] = ms.get_statistics()
+                    except Exception as e:
+                        out["stats_error"] = "%s: %s" % (type(e).__name__, e)
+            except ShimDeadlock as e:
+                out["error"] = "deadlock: " + str(e)
+            except Exception as e:
+                out["error"] = "%s: %s" % (type(e).__name__, str(e)[:200])
+            q = _FakeQueue.last
+            out["leftover"] = q.leftover() if q is not None else None
+            outs.append(out)
+    finally:
+        mps.Process, mps.Queue = saved
+    return outs
+
+
 def count_interleavings(lengths):
     from math import factorial
 
